@@ -233,7 +233,7 @@ def call_closure(self, cl, ca, pos, kw, node, fr):
 
 def construct(self, ci, pos, kw, node, fr, star=None, dstar=None):
     self._new_id += 1
-    obj = Term.of(Atom('new', ci.qual, f'{fr.fi.short}:{getattr(node, "lineno", 0)}:{self._new_id}'))
+    obj = Term.of(Atom('new', ci.qual, f'#{self._new_id}'))
     self.types[obj.key] = ci
     init = ci.find_method('__init__')
     if init is not None:
@@ -277,7 +277,7 @@ def method_call(self, recv, name, pos, kw, node, fr, star=None, dstar=None):
     self.emit('call', node, fr, name='.' + name, resolved=None, args=[recv] + pos, kwargs=kw, external=True,
               method=True, recv=recv, recv_node=node.func.value, candidates=[c.short for c in cands],
               mutating=name in MUTATING_METHODS)
-    if name in MUTATING_METHODS:
+    if name in MUTATING_METHODS and self.class_of(recv) is None:
         # model list growth / dict update on the container expression
         newv = T.mk_call('mut.' + name, [recv] + pos, kw)
         self._rebind(node.func.value, newv, fr)
